@@ -1,5 +1,5 @@
 """C15 — an environment's behaviour depends on its contents, not on its history (DESIGN.md §3 C15)."""
-import json, re, collections, glob, os, hashlib, subprocess, concurrent.futures
+import json, re, collections, glob, os, hashlib, subprocess, concurrent.futures, time
 from common import VERIF, LEAN
 
 READY = True
@@ -96,10 +96,10 @@ META = {
                   "multiset and the repeatability of the order are compared, not the order itself.",
 }
 
-SHARD_HISTORIES = 500
-QUICK_SHARDS = 12          # 6 000 histories
-THOROUGH_SHARDS = 160      # 80 000 histories
-WORKERS = min(12, os.cpu_count() or 4)
+SHARD_HISTORIES = 375
+QUICK_SHARDS = 16          # 6 000 histories
+THOROUGH_SHARDS = 214      # 80 250 histories
+WORKERS = min(16, os.cpu_count() or 4)
 
 FAIL_RE = re.compile(r"FAIL([a-z-]+)\{([^}]*)\}")
 
@@ -384,7 +384,7 @@ def run(r):
               "loop.changed/reverse/kwargs). In every other history (and after the first caught panic in all) the reference "
               "environments are built and observed on brand-new threads. evaluations = history steps (each step compares every "
               "name of every live environment); a history is non-trivial when it is distinct, changes the store or loader and "
-              "performs a lookup. Histories run in shards of 500 (12 quick / 160 thorough, one process each). Plus the "
+              "performs a lookup. Histories run in shards of 375 (16 quick / 214 thorough, one process each, 16 at a time; the foreign-value stream runs beside them). Plus the "
               "foreign-value stream: 9 exporters (macro, closure macro, namespace, set-export, module, caller, loop, from-import, "
               "nested macro) x 5 export sites x 4 consumers x {context, global}, each used on the main thread, on new threads "
               "after 0..3 other renders, on the exporting thread and on 2x4 concurrent threads (all 14 results must be "
@@ -397,11 +397,21 @@ def run(r):
                      "OnceLock::get_or_init runs one initialiser and every reader sees its value; MemoMap is a map under a mutex (std / memo-map)",
                      "a context or global that holds a value with state of its own (namespace, one-shot iterator) is 'the same context' only in the same state",
                      "thread schedules are sampled (8 threads x 12 renders per phase; 14 variants per foreign-value case), not enumerated"]
+    timing = r.extra.setdefault("own_step_seconds", {})
+    t_mark = [time.time()]
+
+    def lap(key):
+        now = time.time()
+        timing[key] = round(timing.get(key, 0) + now - t_mark[0], 1)
+        t_mark[0] = now
     r.regen_tables(["C15_SETTERS", "C15_TEMPLATE_CONFIG", "C15_INSERT_ARMS", "C15_GET_ORDER", "C15_REMOVE_CLEAR", "C15_STATE_ID", "C15_CLONE_DERIVES",
                     "C15_THREAD_LOCALS", "C15_DROP_GUARDS", "C15_POOLS", "C15_HANDLE_REGISTRY", "C15_INSERT_ARM_PATTERNS",
                     "C15_HIDDEN_STATE"])
+    lap("regen_tables")
     r.lean_prove("MJ.Props.C15", "MJ/Audit/C15.lean", extra_targets=["drive_c15"])
+    lap("lean_build_and_audit")
     exe = r.cargo_build("c15")
+    lap("cargo_build")
     if exe is None:
         return
     shrunk = set()
@@ -413,11 +423,21 @@ def run(r):
             continue
         r.extra["corpus_histories"] = r.extra.get("corpus_histories", 0) + sum(1 for l in out.splitlines() if not l.startswith("#"))
         process(r, exe, out, shrunk)
-    rc, out, err = r.harness(exe, ["foreign", "3" if r.tier == "quick" else "20"])
-    if rc != 0:
-        r.broken.append(f"harness c15 foreign exited {rc}: {err[-300:]}")
-    else:
-        process_foreign(r, exe, out)
+    lap("corpus")
+    # the foreign-value stream is bound by thread start-up latency, not by CPU: it runs beside the
+    # history shards and is evaluated after them (fixed order of evaluation = deterministic report)
+    foreign_pool = concurrent.futures.ThreadPoolExecutor(max_workers=1)
+    foreign_job = foreign_pool.submit(r.harness, exe, ["foreign", "3" if r.tier == "quick" else "20"])
+
+    def finish_foreign():
+        rc, out, err = foreign_job.result()
+        foreign_pool.shutdown()
+        lap("foreign_stream_wait")
+        if rc != 0:
+            r.broken.append(f"harness c15 foreign exited {rc}: {err[-300:]}")
+        else:
+            process_foreign(r, exe, out)
+        lap("foreign_stream_evaluation")
     # mjh::Rng streams of neighbouring seeds overlap (same sequence shifted by one draw), so the
     # harness seeds are spread by a hash of (VERIF_SEED, chunk)
     def spread(i):
@@ -441,15 +461,19 @@ def run(r):
         for w in range(0, len(chunks), 2 * WORKERS):
             wave = chunks[w:w + 2 * WORKERS]
             results = list(ex.map(shard, wave))
+            lap("history_shards_run")
             for (seed, count), (rc, out, err, model) in zip(wave, results):
                 if rc != 0:
                     r.broken.append(f"harness c15 exited {rc}: {err[-300:]}")
+                    finish_foreign()
                     return
                 got = sum(1 for l in out.splitlines() if not l.startswith("#"))
                 if got != count:
                     r.broken.append(f"harness c15 produced {got} histories instead of {count}")
                 process(r, exe, out, shrunk, model)
             del results
+            lap("history_shards_evaluation")
+    finish_foreign()
 
 
 def replay(r, path):
